@@ -152,6 +152,7 @@ type setG struct {
 
 type universe struct {
 	v6       bool
+	stress   bool // long CIDR / port lists, so that programs are split in the middle of a rule
 	cidrs    []cidrT
 	other    []cidrT
 	netSets  []setG
@@ -285,6 +286,9 @@ func (u *universe) genProto(r *rng, want int, allowRareNames bool, forceRare boo
 func (u *universe) pickCIDRs(r *rng) ([]string, []string) {
 	var txt, cq []string
 	n := 1 + r.intn(3)
+	if u.stress {
+		n = 3 + r.intn(4)
+	}
 	for i := 0; i < n; i++ {
 		c := u.cidrs[r.intn(len(u.cidrs))]
 		if r.pct(12) {
@@ -300,6 +304,9 @@ func (u *universe) pickRanges(r *rng) ([]*proto.PortRange, []string) {
 	var prs []*proto.PortRange
 	var cq []string
 	n := r.intn(4)
+	if u.stress {
+		n = 3 + r.intn(5)
+	}
 	for i := 0; i < n; i++ {
 		rg := u.ranges[r.intn(len(u.ranges))]
 		if r.pct(20) {
@@ -340,7 +347,7 @@ func (u *universe) genRule(r *rng, action string, feat string) ruleG {
 		pr.Action = strings.ToUpper(action[:1]) + action[1:]
 	}
 	density := []int{0, 8, 20, 35}[r.intn(4)] // per-field probability scale
-	if feat == "simple" {
+	if feat == "simple" || (u.stress && feat == "") {
 		density = []int{0, 0, 8}[r.intn(3)]
 	}
 	on := func(p int) bool { return r.pct(p * density / 20) }
@@ -366,6 +373,10 @@ func (u *universe) genRule(r *rng, action string, feat string) ruleG {
 	wantICMP := on(8)
 	wantNotICMP := on(4)
 	wantPorts := on(30)
+	if u.stress && feat == "" {
+		// mid-rule splitting: long port lists that decide the rule
+		wantPorts = r.pct(60)
+	}
 	protoC, pnC, nprotoC, npnC := "oN", "oK", "oN", "oK"
 	wantProto := -1
 	if wantICMP || wantNotICMP {
@@ -874,6 +885,9 @@ func (g *caseGen) rangeEdge(prs []*proto.PortRange) (int, bool) {
 		return 0, false
 	}
 	pr := prs[g.r.intn(len(prs))]
+	if g.r.pct(50) {
+		pr = prs[len(prs)-1-g.r.intn((len(prs)+1)/2)] // the later ranges sit behind any mid-rule split
+	}
 	return []int{int(pr.First), int(pr.Last), int(pr.Last), (int(pr.First) + int(pr.Last)) / 2}[g.r.intn(4)], true
 }
 
@@ -959,6 +973,7 @@ func main() {
 	n := flag.Int("n", 100, "cases")
 	seed := flag.Uint64("seed", 1, "seed")
 	nprobes := flag.Int("probes", 24, "probe packet states per case")
+	witness := flag.Bool("witness", false, "print the three minimal known-finding cases instead of generated ones")
 	flag.Parse()
 	logrus.SetOutput(io.Discard)
 	logrus.SetLevel(logrus.PanicLevel)
@@ -968,9 +983,15 @@ func main() {
 	vrCoq := fmt.Sprintf("(Build_variant %s %s %s)", coqBool(vr.profileLog), coqBool(vr.protoNames), coqBool(vr.profilePassNext))
 	stats := map[string]int{}
 
+	if *witness {
+		emitWitnesses(enc, vrCoq)
+		return
+	}
+
 	for i := 0; i < *n; i++ {
 		v6 := r.pct(35)
 		u := newUniverse(r, v6)
+		u.stress = r.pct(15)
 		g := &caseGen{u: u, r: r}
 		// feature streams (each is one known-finding class on the pinned tree; a case carries at most one)
 		switch x := r.intn(20); {
@@ -1042,9 +1063,14 @@ func main() {
 			opts = append(opts, polprog.WithAllowDenyJumps(allow, deny))
 		}
 		base, stride := r.intn(20), 0
-		if r.pct(55) {
+		if r.pct(55) || u.stress {
 			stride = 100 + r.intn(1000)
-			opts = append(opts, polprog.WithPolicyMapIndexAndStride(base, stride), polprog.VerifWithMaxJumps([]int{3, 6, 10, 20, 40, 80}[r.intn(6)]))
+			maxJ := []int{3, 6, 10, 20, 40, 80}[r.intn(6)]
+			if u.stress {
+				maxJ = 2 + r.intn(4)
+				tags = append(tags, "split:mid-rule-stress")
+			}
+			opts = append(opts, polprog.WithPolicyMapIndexAndStride(base, stride), polprog.VerifWithMaxJumps(maxJ))
 			tags = append(tags, "split:enabled")
 		}
 		if r.pct(20) {
@@ -1098,4 +1124,58 @@ func main() {
 	}
 	enc.Encode(line{Stats: map[string]any{"variant_profile_log": vr.profileLog, "variant_proto_names": vr.protoNames,
 		"variant_profile_pass_next": vr.profilePassNext, "instructions_total": stats["insns"], "rules_total": stats["rules"]}})
+}
+
+// ---------------------------------------------------------------------------------------------- minimal witnesses
+// The three known-finding classes at their smallest, run through the same machinery (real builder, Coq evaluation).
+func emitWitnesses(enc *json.Encoder, vrCoq string) {
+	u := &universe{ids: map[string]uint64{}}
+	anyRule := func(action string) string {
+		return fmt.Sprintf("(Build_brule (Build_rule %s oV oN nC nP nN nC nP nN oI nN nN nN oN nC nP nC nP oI nN nN nN nN) oK oK)", actionCoq[action])
+	}
+	icmpv6Rule := "(Build_brule (Build_rule Allow oV (sN 58) nC nP nN nC nP nN oI nN nN nN oN nC nP nC nP oI nN nN nN nN) (sK PnIcmpv6) oK)"
+	type w struct {
+		feat, key string
+		v6        bool
+		rules     polprog.Rules
+		rulesC    string
+		probe     string
+	}
+	mk := func(a string) polprog.Rule { return polprog.Rule{Rule: &proto.Rule{Action: a}, MatchID: 1} }
+	v6src, v6dst := "336294682933583715844663186250927177729", "336294682933583715844663186250927177730"
+	ws := []w{
+		{"profile-log", "profile-log-panic", false,
+			polprog.Rules{Profiles: []polprog.Profile{{Name: "p", Rules: []polprog.Rule{mk("log")}}}},
+			fmt.Sprintf("(Build_brules false false false nT [[%s]] nT nT nT nPr)", anyRule("log")),
+			"Build_pstate 167772161 167772162 167772162 1234 80 80 6 80 0 0"},
+		{"protoname", "proto-name-icmpv6-udplite-zero", true,
+			polprog.Rules{Tiers: []polprog.Tier{{Name: "t", EndAction: polprog.TierEndDeny, Policies: []polprog.Policy{{Name: "pol", Rules: []polprog.Rule{
+				{Rule: &proto.Rule{Action: "allow", Protocol: &proto.Protocol{NumberOrName: &proto.Protocol_Name{Name: "icmpv6"}}}, MatchID: 1}}}}}}},
+			fmt.Sprintf("(Build_brules false false false [(Build_btier [[%s]] EndDeny)] nPr nT nT nT nPr)", icmpv6Rule),
+			fmt.Sprintf("Build_pstate %s %s %s 0 0 0 58 128 0 0", v6src, v6dst, v6dst)},
+		{"profile-pass", "profile-pass-denies", false,
+			polprog.Rules{Profiles: []polprog.Profile{{Name: "p", Rules: []polprog.Rule{mk("pass")}}, {Name: "q", Rules: []polprog.Rule{mk("allow")}}}},
+			fmt.Sprintf("(Build_brules false false false nT [[%s]; [%s]] nT nT nT nPr)", anyRule("pass"), anyRule("allow")),
+			"Build_pstate 167772161 167772162 167772162 1234 80 80 6 80 0 0"},
+	}
+	for _, x := range ws {
+		opts := []polprog.Option{polprog.WithAllowDenyJumps(3, 4)}
+		if x.v6 {
+			opts = append(opts, polprog.WithIPv6())
+		}
+		res := compile(u, x.rules, opts)
+		resC, nInsn := "CPanic", 0
+		switch res.kind {
+		case "ok":
+			var s string
+			s, nInsn = insnsCoq(res.progs)
+			resC = "(COk " + s + ")"
+		case "error":
+			resC = "CError"
+		}
+		coq := fmt.Sprintf("(Build_case %s %s true 3 4 0 0\n %s\n nST\n %s\n [%s])%%N", coqBool(x.v6), vrCoq, x.rulesC, resC, x.probe)
+		enc.Encode(line{Coq: coq, NT: true, Feat: x.feat, Key: x.key, Result: res.kind + ":" + res.msg,
+			Tags:   []string{"witness:" + x.key, "compile:" + res.kind},
+			Sample: map[string]any{"witness": x.key, "compile": res.kind, "msg": res.msg, "instructions": nInsn}})
+	}
 }
